@@ -341,6 +341,16 @@ fn main() {
                         || { let (da, db): (VecDeque<f64>, VecDeque<f64>) = (a.iter().cloned().collect(), b.iter().cloned().collect());
                              out_cells(guarded(|| call2_to!(fi_, da, &db, w, mp))) });
                 }
+                // both series seen through REVERSED contiguous ndarray views (stride -1)
+                if rng.chance(1, 5) {
+                    em.case(&cmp, &tags("f64", "nd_rev"), &desc("f64", "nd_rev"), || term("ff", true, &a_coq, &b_coq),
+                        || { use tevec::export::ndarray::{Array1, ArrayView1, s};
+                             let ra = Array1::from_vec(a.iter().rev().cloned().collect::<Vec<f64>>());
+                             let rb = Array1::from_vec(b.iter().rev().cloned().collect::<Vec<f64>>());
+                             let va: ArrayView1<f64> = ra.slice(s![..;-1]);
+                             let vb: ArrayView1<f64> = rb.slice(s![..;-1]);
+                             out_cells(guarded(|| call2!(fi_, va, &vb, w, mp, Vec<f64>))) });
+                }
                 // mixed backends: Vec against VecDeque (the first series decides the body)
                 if rng.chance(1, 6) {
                     em.case(&cmp, &tags("f64", "vec_x_deque"), &desc("f64", "vec_x_deque"), || term("ff", true, &a_coq, &b_coq),
